@@ -98,7 +98,7 @@ def unit(bits):
            '''.format(**fmt))])
 
     u.item(F, ['trait FieldOps', 'fn neg'], name=p + '_neg', ret='r',
-           rewrites=tsel(bits, 'zero', extra=[(r'\bSelf::sub\(', p + '_sub(', 1)]) + wty(bits),
+           rewrites=tsel(bits, 'zero', extra=[(r'\bSelf::sub\(', p + '_sub(', '*')]) + wty(bits),
            sig=_commas('''
 requires
     x < {P}_PRIME
@@ -117,7 +117,7 @@ ensures
     # modp: called by montgomery()/residue() on values already < p (result of mul): then x - p
     # borrows and the prime is added back; the contract states the general behaviour on [0, 2p).
     u.item(F, ['trait FieldOps', 'fn modp'], name=p + '_modp', ret='r',
-           rewrites=tsel(bits, 'prime', extra=[(r'\bSelf::sub\(', p + '_sub(', 1)]) + wty(bits),
+           rewrites=tsel(bits, 'prime', extra=[(r'\bSelf::sub\(', p + '_sub(', '*')]) + wty(bits),
            sig=_commas('''
 ensures
     (x as int) < PP() ==> r == x
